@@ -438,4 +438,4 @@ def run(tier, seed, only=None, nproc=None):
         assumptions=["the RNG's permutation() may return ANY permutation: all of them are enumerated (per epoch for n<=3)",
                      "data and affinity are symbolic: alignment is identity of terms, not numeric coincidence",
                      "validation stubbed to identity; optimiser replaced by a recorder; pairwise_kernels -> uninterpreted symmetric matrix"],
-        bounds={"tier": tier, "configs": len(js), "n": "2..3 (4 thorough)", "batch_size": "1..n+1 and None", "max_iter": "1, 2"})
+        bounds={"tier": tier, "configs": len(js), "n": "2..3 (4 thorough) with every permutation; 7 (10, 13 thorough) with three fixed permutations", "batch_size": "1..n+1 and None; 2,3,5 for n=7", "max_iter": "1, 2"})
